@@ -69,7 +69,9 @@ def stale (g : G) (inst : Str) (rid : Int) : Bool :=
 
 def sameInst (a b : Option Inst) : Bool := decide (a = b)
 
-/-! ### the clauses, each about one `SetState(inst, rid, cur)` call: state before, reply, state after -/
+/-! ### facts about one `SetState(inst, rid, cur)` call of the MODEL: state before, reply, state after.
+    These say more than the property does (exact replies, stored ids, which entries exist); they are proved of
+    the model (`c08_model_step_facts`) and are NOT what the real code is judged by: see `judgeClauses` below. -/
 
 /-- `count = Σ per-instance counts` (as `int32`s, and exactly when the sum fits) -/
 def clTotal (_b : G) (_i : Str) (_r _c : Int) (_rep : Reply) (a : G) : Bool :=
@@ -134,15 +136,72 @@ def clauses (others : List Str) : List (String × (G → Str → Int → Int →
 def violations (others : List Str) (b : G) (i : Str) (r c : Int) (rep : Reply) (a : G) : List String :=
   (clauses others).filterMap fun (n, f) => if f b i r c rep a then none else some n
 
-/-- `Resize(n)`: only the limit changes, and it becomes `n` -/
+/-- `Resize(n)` of the model: only the limit changes, and it becomes `n` -/
 def resizeViolations (b : G) (n : Int) (a : G) : List String :=
   (if a.max = n then [] else ["resize-max"]) ++
   (if a.count = b.count ∧ a.states = b.states then [] else ["resize-touches-accounting"])
 
+/-! ### THE JUDGE: the clauses of the property's text, applied to what the real code answered
+
+Restated so that a change which keeps the property cannot break them: bounds are upper bounds, a refusal is
+`accept = false` with the accounting unchanged (whatever error or `latest` value comes with it), refusals beyond
+the property are allowed, and nothing is demanded of replies the property does not mention. The limit in the
+observed states is the CONFIGURED one (the harness substitutes it), and "a request id already processed for that
+instance" is the ghost value `lastId` that the harness tracks from the ops and the replies alone (newest positive
+id of a report of this instance that was answered without an error since the instance was last removed / the flow
+control created) — not whatever the code happens to store. In the model `lastId` is the stored id
+(`c08_judge_sound`). -/
+
+/-- the report's id is not newer than one already processed for the instance -/
+def staleG (lastId : Option Int) (r : Int) : Bool :=
+  match lastId with
+  | some l => decide (0 < r ∧ r ≤ l)
+  | none => false
+
+/-- an accepted report counts as reported and leaves the total within the limit -/
+def jcAccept (b : G) (i : Str) (c : Int) (rep : Reply) (a : G) : Bool :=
+  decide (rep.accept = true → 0 ≤ c → Pre b i c → b.count = sumStates b.states → a.count ≤ a.max ∧ oldCount a i = c)
+
+/-- a report that does not raise the instance's count is applied -/
+def jcDecrease (lastId : Option Int) (b : G) (i : Str) (r c : Int) (a : G) : Bool :=
+  decide (0 ≤ c → c ≤ oldCount b i → staleG lastId r = false → oldCount a i = c)
+
+/-- a report whose id is not newer than one already processed is refused: not accepted, accounting unchanged -/
+def jcStale (lastId : Option Int) (others : List Str) (b : G) (i : Str) (r c : Int) (rep : Reply) (a : G) : Bool :=
+  decide (0 ≤ c → staleG lastId r = true →
+    rep.accept = false ∧ a.count = b.count ∧ ∀ j ∈ i :: others, oldCount a j = oldCount b j)
+
+/-- a removal unregisters the instance -/
+def jcRemoval (i : Str) (c : Int) (a : G) : Bool := decide (c < 0 → find i a.states = none)
+
+/-- no other instance's count is touched -/
+def jcOthers (others : List Str) (b : G) (i : Str) (a : G) : Bool :=
+  others.all fun j => decide (j = i) || decide (oldCount a j = oldCount b j)
+
+/-- names of the clauses of the property that `SetState(i, r, c)` breaks: state `b` before, reply `rep`, state `a`
+    after, ghost `lastId` -/
+def judgeViolations (others : List Str) (lastId : Option Int) (b : G) (i : Str) (r c : Int) (rep : Reply) (a : G) :
+    List String :=
+  [("total", clTotal b i r c rep a), ("exact", clExact b i r c rep a), ("bound", clBound b i r c rep a),
+   ("accept-over-limit", jcAccept b i c rep a), ("decrease-not-applied", jcDecrease lastId b i r c a),
+   ("stale-id-not-refused", jcStale lastId others b i r c rep a), ("removal", jcRemoval i c a),
+   ("other-instance-touched", jcOthers others b i a)].filterMap fun (n, ok) => if ok then none else some n
+
+/-- a limit change (or a re-sync) leaves the accounting alone -/
+def jcResize (b a : G) : List String :=
+  if a.count = b.count ∧ (∀ j ∈ keys a.states ++ keys b.states, oldCount a j = oldCount b j) then []
+  else ["resize-touches-accounting"]
+
+/-- tokens: a negative ask is refused (nothing accepted, nothing granted); a grant lies between 0 and the ask -/
+def grantJudge (ask : Int) (r : AcqResult) : List String :=
+  (if ask < 0 → (r.accept = false ∧ r.limit = 0) then [] else ["negative-ask-not-refused"]) ++
+  (if 0 ≤ ask → r.accept = true → (0 ≤ r.limit ∧ r.limit ≤ ask) then [] else ["grant-out-of-range"])
+
 /-! ### tokens -/
 
-/-- `0 ≤ grant ≤ ask`, a grant is one of `ask, ask/2, ask/4, ask/8`, nothing is granted without `accept`,
-    a negative ask is an error -/
+/-- model-level facts about a token acquisition (more than the property says: the halving set, the error kind;
+    proved of the model, not judged on the code: `grantJudge`): `0 ≤ grant ≤ ask`, a grant is one of
+    `ask, ask/2, ask/4, ask/8`, nothing is granted without `accept`, a negative ask is an error -/
 def grantViolations (ask : Int) (r : AcqResult) : List String :=
   (if ask < 0 → (r.err = .negativeTokens ∧ r.accept = false ∧ r.limit = 0) then [] else ["negative-ask-not-refused"]) ++
   (if 0 ≤ ask → r.err = .none → (0 ≤ r.limit ∧ r.limit ≤ ask) then [] else ["grant-out-of-range"]) ++
